@@ -128,10 +128,11 @@ func runCase(kind, note string, d *desc, F []string, mk func() []*request) sexp.
 }
 
 // the apifu route (see apifu.go)
-func runApifuCase(F []string, ws bool) sexp.Node {
+func runApifuCase(F []string, route string) sexp.Node {
+	ws := route == "graphql-ws" || route == "graphql-transport-ws"
 	d := apifuDesc()
 	e := erase(d, F)
-	head := []sexp.Node{sexp.T("kind", sexp.Sym("apifu")), sexp.T("note", sexp.Str(map[bool]string{false: "http", true: "graphql-ws"}[ws])), d.sexp(), sexp.T("features", strs(F)...),
+	head := []sexp.Node{sexp.T("kind", sexp.Sym("apifu")), sexp.T("note", sexp.Str(route)), d.sexp(), sexp.T("features", strs(F)...),
 		sexp.T("all", strs(alphabet)...)}
 	on := subset([]string{"fa"}, F)
 	all := graphql.NewFeatureSet(alphabet...)
@@ -145,10 +146,10 @@ func runApifuCase(F []string, ws bool) sexp.Node {
 	if err != nil {
 		return sexp.T("case", append(head, sexp.T("erased-rejected", sexp.Str(err.Error())))...)
 	}
-	a := &side{api: apiA, features: graphql.NewFeatureSet(F...), log: logA}
-	b := &side{api: apiB, features: all, log: logB}
+	a := &side{api: apiA, features: graphql.NewFeatureSet(F...), log: logA, persisted: route == "http-persisted"}
+	b := &side{api: apiB, features: all, log: logB, persisted: route == "http-persisted"}
 	if ws {
-		a.ws, b.ws = openWS(apiA, a.features), openWS(apiB, b.features)
+		a.ws, b.ws = openWS(apiA, a.features, route), openWS(apiB, b.features, route)
 		defer a.ws.close()
 		defer b.ws.close()
 	}
@@ -174,7 +175,7 @@ func runApifuCase(F []string, ws bool) sexp.Node {
 		}
 		c := &side{api: apiC, features: all, log: logC}
 		if ws {
-			c.ws = openWS(apiC, all)
+			c.ws = openWS(apiC, all, route)
 			defer c.ws.close()
 		}
 		o := c.run("{ __schema { types { name } } }", nil)
@@ -279,8 +280,8 @@ func main() {
 		// 1b. the apifu route: Config.Features plumbing, a gated apifu.Connection
 		for _, F := range subsetsOf([]string{"fa", "fb"}) {
 			F := F
-			h.Case(func(*rng.R) sexp.Node { return runApifuCase(F, false) })
-			h.Case(func(*rng.R) sexp.Node { return runApifuCase(F, true) })
+			h.Case(func(*rng.R) sexp.Node { return runApifuCase(F, "http") })
+			h.Case(func(*rng.R) sexp.Node { return runApifuCase(F, "graphql-ws") })
 		}
 		// 2. random schemas obeying the construction rules
 		n, nh := 1500, 1800
@@ -307,6 +308,14 @@ func main() {
 				F := randSubset(r, alphabet)
 				return runCase("hostile", what, d, F, func() []*request { return randomRequests(r, d, false, 2, 2, 2) })
 			})
+		}
+		// 4. the other routes of the feature-set plumbing: a persisted query registered by a request
+		// with every feature and replayed by hash with F (api.go, PersistedQueryExtension), and the
+		// graphql-transport-ws subprotocol of ServeGraphQLWS
+		for _, F := range subsetsOf([]string{"fa", "fb"}) {
+			F := F
+			h.Case(func(*rng.R) sexp.Node { return runApifuCase(F, "http-persisted") })
+			h.Case(func(*rng.R) sexp.Node { return runApifuCase(F, "graphql-transport-ws") })
 		}
 	})
 }
